@@ -324,7 +324,8 @@ def obligations(tier):
                 out += specs("C07.state", [{"kinds": kinds, "names": list(names), "sym": sym}], ob_state, k)
         if k == 2:
             out += specs("C07.state", [{"kinds": kinds, "names": [1, 0], "sym": "all"}], ob_state, 3)
-    out += specs("C07.state", [{"kinds": "QQQQ", "names": [3, 1, 0, 2], "sym": 0}], ob_state, 6)
+    if tier == "thorough":
+        out += specs("C07.state", [{"kinds": "QQQQ", "names": [3, 1, 0, 2], "sym": 0}], ob_state, 6)
     # POVMs with pairwise different outcome counts (library indices: Q: 0->2, 3->3, 4->4 outcomes; T: 0->2, 9->3)
     for kinds, pick in tiers(tier, [("QQ", [3, 0]), ("QT", [4, 9])], [("QQ", [3, 0]), ("QQ", [0, 4]), ("QT", [4, 9]), ("TQ", [9, 3]), ("QQQ", [0, 3, 4])]):
         k = len(kinds)
@@ -334,10 +335,11 @@ def obligations(tier):
     for kinds, pick in tiers(tier, [("QQ", ["ampdamp", "S"]), ("QT", ["ampdamp", "mix"])], [("QQ", ["ampdamp", "S"]), ("QT", ["ampdamp", "mix"]), ("TQ", ["mix", "S"]), ("QQQ", ["ampdamp", "S", "rx"])]):
         k = len(kinds)
         for names in itertools.permutations(range(k)):
-            for sym in ([1] if tier == "quick" else range(k)):
+            # quick: the cheap (qubit) factor symbolic; the 81-parameter qutrit factor symbolic only in the thorough tier
+            for sym in ([0] if tier == "quick" else range(k)):
                 out += specs("C07.gate", [{"kinds": kinds, "names": list(names), "sym": sym, "pick": pick}], ob_gate, 4)
     for names in ([0, 1], [1, 0]):
-        for sym in (0, 1):
+        for sym in tiers(tier, (1,), (0, 1)):
             out += specs("C07.mprocess", [{"names": names, "m1name": "trine3", "m2name": "z_then_U", "sym": sym}], ob_mprocess, 4)
     out += specs("C07.basis", [{"kinds": kd} for kd in ("QQ", "QT", "TQ", "QQQ")], ob_basis, 0.5)
     return out
